@@ -568,7 +568,13 @@ func runC03_5(c *Ctx) {
 		if !ok || u.Op != token.MUL {
 			continue
 		}
-		if _, isFV := u.X.(*ssa.FreeVar); !isFV {
+		// the flag: a captured variable, or a *bool parameter of the extracted deferred method
+		_, isFV := u.X.(*ssa.FreeVar)
+		_, isPrm := u.X.(*ssa.Parameter)
+		if !isFV && !isPrm {
+			continue
+		}
+		if bt, isB := u.Type().Underlying().(*types.Basic); !isB || bt.Kind() != types.Bool {
 			continue
 		}
 		wTrue, wFalse = b.Succs[0], b.Succs[1]
